@@ -57,6 +57,11 @@ fn main() {
             let id = args[2].as_str();
             let thorough = args.get(3).map(|s| s == "thorough").unwrap_or(false);
             let seed: u64 = args.get(4).and_then(|s| s.parse().ok()).unwrap_or(1);
+            if let Some(run) = props::custom_by_id(id) {
+                let rep = run(thorough, seed, args.get(5).cloned());
+                rep.finish();
+                return;
+            }
             let replay = args.get(5).map(|p| replay_case(p));
             match props::by_id(id) {
                 Some(p) => {
